@@ -166,7 +166,7 @@ static void print_ranges(void)
     printf("\n");
 }
 
-static void on_alarm(int s) { printf("TIMEOUT\n"); fflush(stdout); _exit(3); }
+static void on_alarm(int s) { printf("TIMEOUT\n"); fflush(stdout); if (getenv("C12_HANG_PAUSE")) { for (;;) pause(); } _exit(3); }
 
 typedef void (*loopfn)(size_t, size_t, qt_loop_f, void *);
 static loopfn balance_fn(const char *fl)
